@@ -11,7 +11,21 @@ CONSTANTS Seeds,      \* set of <<scheme, range text, probe text>>
 Deleted(s)  == {SubSeq(s, 1, i - 1) \o SubSeq(s, i + 1, Len(s)) : i \in 1..Len(s)}
 Replaced(s) == {[s EXCEPT ![i] = b] : i \in 1..Len(s), b \in Bytes}
 Inserted(s) == {SubSeq(s, 1, i) \o <<b>> \o SubSeq(s, i + 1, Len(s)) : i \in 0..Len(s), b \in Bytes}
-Corruptions(s) == (Deleted(s) \cup Replaced(s) \cup Inserted(s)) \ {s}
+\* constraint-level corruptions: a star among the constraints (at every position, and in place of every
+\* constraint), and constraint lists that are empty once blanks are removed
+RECURSIVE JoinBar(_)
+JoinBar(ps) == IF Len(ps) = 0 THEN <<>> ELSE IF Len(ps) = 1 THEN ps[1] ELSE ps[1] \o <<124>> \o JoinBar(Tail(ps))
+StarForms(s) ==
+  LET sl    == IndexOf(s, 47)
+      head  == SubSeq(s, 1, sl)
+      parts == SplitAt(SubSeq(s, sl + 1, Len(s)), 124)
+      n     == Len(parts)
+      ins(k) == SubSeq(parts, 1, k) \o << <<42>> >> \o SubSeq(parts, k + 1, n) IN
+  IF sl = 0 THEN {}
+  ELSE {head \o JoinBar(ins(k)) : k \in 0..n}
+       \cup {head \o JoinBar([parts EXCEPT ![k] = <<42>>]) : k \in 1..n}
+       \cup {head \o e : e \in {<<>>, <<124>>, <<124, 124>>, <<32>>, <<32, 124, 32>>, <<42, 124, 42>>}}
+Corruptions(s) == (Deleted(s) \cup Replaced(s) \cup Inserted(s) \cup StarForms(s)) \ {s}
 
 \* ckind remembers which set the seed came from ("s" corrupted, "r" emitted as is): a membership test in the
 \* large Routing set on every step would re-evaluate its definition each time
